@@ -206,6 +206,14 @@ fn one_stream(rep: &mut Report, prop: &str, mode: Mode, stream: &[u8], blocks: &
             // the default block size zero-fills 512 KiB per refill: full reads and 1-byte reads only
             scheds.truncate(2);
         }
+        // chunker only: a transient end of file (Ok(0) once, data later) at every reader call
+        if mode != Mode::Reader && bound >= 1 && stream.len() <= 5 {
+            for i in 0..calls.min(stream.len() + 3) {
+                let sched = Sched::Devs(vec![(i, Dev::Zero)]);
+                let case = Case { target: "chunker", stream, block: *block, sched: &sched, judge: None, arena: ArenaState::Fresh };
+                judged(rep, prop, &case);
+            }
+        }
         for sched in &scheds {
             if mode != Mode::Reader {
                 for arena in arenas {
@@ -804,6 +812,8 @@ fn replay(ctx: &Ctx, text: &str) -> Result<String, String> {
 }
 
 fn main() {
+    // a runaway execution must die alone (see mc_core::limit_address_space)
+    mc_core::limit_address_space(4 << 30);
     main_entry(Engine {
         name: "stream_mc",
         level: |p| if p == "C05" || p == "C10" { "model_checking" } else { "fault_enumeration" },
